@@ -63,6 +63,8 @@ class C05Monitor(Monitor):
         self.flip = False
         self.after = {}  # id(deme) -> gen consults after t
         self.step_consults = {}  # id(deme) -> gen consults in the current step
+        self._req_seen = 0
+        self._req_by = {}
         self.last_ran = {}  # id(deme) -> last step in which it requested evaluations during the metaepoch phase
         self.keep = []
 
@@ -92,6 +94,14 @@ class C05Monitor(Monitor):
         if self.t is not None and not self.flip:
             self.violate("sprout-after-stop", {"t_site": self.t["site"], "t_step": self.t["step"]})
 
+    def _evals_of(self, deme):
+        """Evaluations of a deme as the simulator saw them (requests attributed to it), not as pyhms booked them."""
+        w = self.w
+        for r in w.requests[self._req_seen:]:
+            self._req_by[r.deme] = self._req_by.get(r.deme, 0) + 1
+        self._req_seen = len(w.requests)
+        return self._req_by.get(w.deme_ord(deme), 0)
+
     def _reference_gsc(self, tree):
         """The shipped GSC's verdict recomputed from its definition and the public state (None = not modelled)."""
         w = self.w
@@ -106,7 +116,7 @@ class C05Monitor(Monitor):
         if k == "metaepoch_limit":
             return tree.metaepoch_count >= g["limit"]
         if k == "singular_eval_limit":
-            return sum(d.n_evaluations for d in demes) >= g["limit"]
+            return sum(self._evals_of(d) for d in demes) >= g["limit"]
         if k == "fitness_eval_limit":
             wts = g.get("weights", "equal")
             n = len(tree.levels)
@@ -116,7 +126,7 @@ class C05Monitor(Monitor):
                 wts = [1] + [0] * (n - 1)
             tot = 0
             for d in demes:
-                tot += wts[d._level] * d.n_evaluations
+                tot += wts[d._level] * self._evals_of(d)
             return tot >= g["limit"]
         if k == "precision":
             for layer in w.stacks[int(g.get("stack", 0))]["layers"]:
